@@ -194,6 +194,8 @@ PROPS["C02"] = {
          "quick": {"params": "stmts=4,writers=2,shape=3,nulls=0", "workers": 16, "timeout": 1200}},
         {"pkg": ".", "dir": "s3db", "entry": "VerifH_C02_history", "tag": "-upd-del-ins",
          "quick": {"params": "stmts=4,writers=2,shape=2,nulls=0", "workers": 16, "timeout": 1200}},
+        {"pkg": "sqlite", "dir": "sqlite", "entry": "VerifH_C02_sql_update", "extra": [("s3db_export", ".")], "no_native": True,
+         "quick": {"workers": 4, "timeout": 600}},
         {"pkg": ".", "dir": "s3db", "entry": "VerifH_selfcheck_mergerows", "quick": {"workers": 1, "timeout": 300, "validate": 4}},
     ],
     "bounds": {"quick": "the repository's own MergeRows/toSQLiteValue/sort-order unit-test cases with the clock symbolic (translator validation); one key, two non-key columns, 3 statements (kind, assigned columns, write time and values symbolic; distinct write times), 2 writers, one optional commit+refresh point, every merge order at the final open",
